@@ -286,6 +286,24 @@ func ops() []op {
 		b.Header.Init()
 		return b, true
 	})
+	// A signature the node HAS verified before, on a header it does not belong to (seeded change C03-w: a cache of verified
+	// (generator key, signature) pairs that does not include the signed content): the latest earlier block of the slot owner
+	// lends its signature; nobody needs the private key for that.
+	add("signature-copied-from-an-earlier-block-of-the-generator", true, func(c *mctx) (*blockchain.Block, bool) {
+		for h := int64(c.n.Tip().Header.Height); h >= 1; h-- {
+			hd, err := c.n.Chain.DataAccess().GetBlockHeaderByHeight(uint32(h))
+			if err != nil {
+				return nil, false
+			}
+			if bytes.Equal(hd.GeneratorAddress, c.valid.Header.GeneratorAddress) {
+				b := c.clone()
+				b.Header.Signature = append([]byte{}, hd.Signature...)
+				b.Header.Init()
+				return b, true
+			}
+		}
+		return nil, false
+	})
 	add("signed-for-other-chainID", true, func(c *mctx) (*blockchain.Block, bool) {
 		b := c.clone()
 		b.Header.Sign([]byte{0x04, 0x00, 0x00, 0x0a}, c.owner.EdPriv)
